@@ -194,7 +194,7 @@ def _apply_unit(repo: str, header: str, body_lines: List[str], tpl_name: str) ->
                 # `guard: self.F.write() as LK w` / `... .read() as LK r`: lock guards keep their scope.  The `let X = <expr>;`
                 # becomes `self.LK.acquire_w(); let X = &mut self.F;` and `self.LK.release_w();` is inserted where the guard
                 # is dropped: at the end of the enclosing block and before every `return` inside it.
-                mg = re.match(r"guard:\s*(.+?)\s+as\s+(\w+)\s+([wr])\s*$", d)
+                mg = re.match(r"guard:\s*(.+?)\s+as\s+(\w+)\s+([wrx])\s*$", d)
                 if not mg:
                     raise ExtractError("bad guard rule in %s/%s: %s" % (tpl_name, uid, d))
                 sections.append(("guard", mg.group(1).strip(), [mg.group(2), mg.group(3)]))
@@ -528,8 +528,50 @@ def _requires_canary(uid: str, sig: str, spec: str) -> str:
     return "\n" + csig + "\n    " + req + ",\n{ assert(false); vstd::pervasive::unreached() }\n"
 
 
+def _postfix_start(toks, q: int) -> int:
+    """Index of the first token of the postfix expression that ends just before token q (a `?`)."""
+    i = q - 1
+    while i >= 0:
+        t = toks[i]
+        if t.text in (")", "]"):
+            d = 0
+            while i >= 0:
+                if toks[i].text in (")", "]", "}"):
+                    d += 1
+                elif toks[i].text in ("(", "[", "{"):
+                    d -= 1
+                    if d == 0:
+                        break
+                i -= 1
+            if i < 0:
+                raise ExtractError("unbalanced expression before `?`")
+            # a call / index: the callee precedes; a parenthesised primary: stop here
+            if i > 0 and (toks[i - 1].kind == "id" or toks[i - 1].text in (")", "]", "?", ">")) and toks[i - 1].text not in ("return", "in", "if", "match", "while", "else", "let", "mut"):
+                i -= 1
+                if toks[i].text == ">":
+                    raise ExtractError("turbofish before `?` is not supported in a guard scope")
+                continue
+            return i
+        if t.text == "?":
+            i -= 1
+            continue
+        if t.kind in ("id", "num", "str", "char"):
+            if i > 0 and toks[i - 1].text == ".":
+                i -= 2
+                continue
+            if i > 1 and toks[i - 1].text == ":" and toks[i - 2].text == ":":
+                i -= 3
+                continue
+            return i
+        raise ExtractError("cannot find the start of the expression before `?` (token `%s`)" % t.text)
+    raise ExtractError("cannot find the start of the expression before `?`")
+
+
 def _apply_guard(uid: str, body: str, expr: str, lk: str, mode: str) -> Tuple[str, int]:
-    """See the `guard:` directive.  Raises ExtractError (=> undecided) for shapes it cannot place a release for."""
+    """See the `guard:` directive.  Raises ExtractError (=> undecided) for shapes it cannot place a release for.
+    Modes w / r: parking_lot RwLock guards over a field (`let g = self.F.write();` => acquire + `let g = &mut self.F;`).
+    Mode x: an exclusive guard that protects no field of its own (`let _g = self.L.lock();` => `self.<lk>_acquire();`
+    and `self.<lk>_release();` on every exit of the guard's scope: scope end, tail expression, `return`, `?`)."""
     etoks = [t.text for t in rt.tokenize(expr)]
     mfield = re.match(r"self\s*\.\s*(\w+)\s*\.", expr)
     if not mfield:
@@ -568,15 +610,47 @@ def _apply_guard(uid: str, body: str, expr: str, lk: str, mode: str) -> Tuple[st
             raise ExtractError("%s: guard `%s` has no enclosing block" % (uid, name))
         cb = rt.match_close(toks, ob)
         last = toks[cb - 1].text
+        if mode == "x":
+            rel = "self.%s_release();" % lk
+        else:
+            rel = "self.%s.release_%s();" % (lk, mode)
+        edits = []
+        tail_start = None
         if last not in (";", "}", "{"):
-            raise ExtractError("%s: the scope of guard `%s` ends in a tail expression; cannot place the release" % (uid, name))
-        rel = "self.%s.release_%s();" % (lk, mode)
-        edits = [(toks[cb].start, toks[cb].start, " " + rel + " ")]
+            if mode != "x":
+                raise ExtractError("%s: the scope of guard `%s` ends in a tail expression; cannot place the release" % (uid, name))
+            d2, ls = 0, k
+            for z in range(k + 1, cb):
+                tz = toks[z].text
+                if tz in "([{":
+                    d2 += 1
+                elif tz in ")]}":
+                    d2 -= 1
+                    if tz == "}" and d2 == 0 and z + 1 < cb:
+                        nx = toks[z + 1]
+                        if nx.kind in ("id", "num", "str", "char") and nx.text not in ("else", "as"):
+                            ls = z      # a block statement ended; what follows starts a new statement / the tail
+                        elif nx.text not in (".", "else", ";", ")", ",", "?", "as"):
+                            ls = -1
+                elif tz == ";" and d2 == 0:
+                    ls = z
+            if ls < 0:
+                raise ExtractError("%s: cannot delimit the tail expression of the scope of guard `%s`" % (uid, name))
+            tail_start = ls + 1
         q = k + 1
         while q < cb:
             t = toks[q]
             if t.text == "?":
-                raise ExtractError("%s: `?` inside the scope of guard `%s`; cannot place the release" % (uid, name))
+                if mode != "x":
+                    raise ExtractError("%s: `?` inside the scope of guard `%s`; cannot place the release" % (uid, name))
+                try:
+                    es = _postfix_start(toks, q)
+                except ExtractError as e:
+                    raise ExtractError("%s: guard `%s`: %s" % (uid, name, e))
+                if es <= k:
+                    raise ExtractError("%s: guard `%s`: expression before `?` starts outside the guard scope" % (uid, name))
+                edits.append((toks[es].start, toks[es].start, "(match "))
+                edits.append((t.start, t.end, " { Ok(__v) => __v, Err(__e) => { " + rel + " return Err(__e); } })"))
             if t.kind == "id" and t.text == "return":
                 d2, e = 0, None
                 for z in range(q, cb):
@@ -591,9 +665,16 @@ def _apply_guard(uid: str, body: str, expr: str, lk: str, mode: str) -> Tuple[st
                     raise ExtractError("%s: unterminated return inside guard scope" % uid)
                 edits.append((toks[q].start, toks[q].start, "{ " + rel + " "))
                 edits.append((toks[e].end, toks[e].end, " }"))
-                q = e
             q += 1
-        acq = "self.%s.acquire_%s(); let %s = %sself.%s;" % (lk, mode, name, "&mut " if mode == "w" else "&", field)
+        if tail_start is not None:
+            edits.append((toks[tail_start].start, toks[tail_start].start, "let __guard_tail = "))
+            edits.append((toks[cb].start, toks[cb].start, "; " + rel + " __guard_tail "))
+        else:
+            edits.append((toks[cb].start, toks[cb].start, " " + rel + " "))
+        if mode == "x":
+            acq = "self.%s_acquire(); let %s = ();" % (lk, name)
+        else:
+            acq = "self.%s.acquire_%s(); let %s = %sself.%s;" % (lk, mode, name, "&mut " if mode == "w" else "&", field)
         edits.append((toks[i].start, toks[k].end, acq))
         for a, b, txt in sorted(edits, key=lambda x: -x[0]):
             body = body[:a] + txt + body[b:]
